@@ -41,7 +41,12 @@ fn meters(unit: &DistanceUnit) -> f64 {
 fn tolerances() -> Vec<(Option<(f64, DistanceUnit)>, u8)> {
     let mut v = vec![(None, 0u8)];
     for m in [100.0, 700.0, 1300.0, 5000.0] {
-        for u in [DistanceUnit::Meters, DistanceUnit::Kilometers, DistanceUnit::Miles, DistanceUnit::Feet] {
+        for u in [
+            DistanceUnit::Meters,
+            DistanceUnit::Kilometers,
+            DistanceUnit::Miles,
+            DistanceUnit::Feet,
+        ] {
             v.push((Some((m / meters(&u), u)), 0));
         }
     }
@@ -59,7 +64,13 @@ fn hav(ax: f32, ay: f32, bx: f32, by: f32) -> f64 {
 /// expected outcome for one point: (set of acceptable ids, must_error, on_boundary)
 /// `near_ties`: away from the origin of the coordinate system the f32 coordinates carry rounding of the size of 1e-6 degrees,
 /// so candidates that are equally far on paper differ in the last bits: all within 0.1 % of the least distance are accepted
-fn expect(cands: &[(usize, f32, f32)], px: f64, py: f64, tol: &Option<(f64, DistanceUnit)>, near_ties: bool) -> (Vec<usize>, bool, bool) {
+fn expect(
+    cands: &[(usize, f32, f32)],
+    px: f64,
+    py: f64,
+    tol: &Option<(f64, DistanceUnit)>,
+    near_ties: bool,
+) -> (Vec<usize>, bool, bool) {
     let (fx, fy) = (px as f32, py as f32);
     let d2 = |c: &(usize, f32, f32)| {
         let dx = c.1 - fx;
@@ -70,7 +81,10 @@ fn expect(cands: &[(usize, f32, f32)], px: f64, py: f64, tol: &Option<(f64, Dist
         return (vec![], true, false);
     }
     let best = cands.iter().map(d2).fold(f32::INFINITY, f32::min);
-    let argmin: Vec<&(usize, f32, f32)> = cands.iter().filter(|c| d2(c) == best || (near_ties && d2(c) <= best * 1.001 + 1e-12)).collect();
+    let argmin: Vec<&(usize, f32, f32)> = cands
+        .iter()
+        .filter(|c| d2(c) == best || (near_ties && d2(c) <= best * 1.001 + 1e-12))
+        .collect();
     let ids: Vec<usize> = argmin.iter().map(|c| c.0).collect();
     match tol {
         None => (ids, false, false),
@@ -108,8 +122,15 @@ fn check_vertex(scratch: &Scratch, mask: u32, origin: usize, tier: Tier, st: &mu
         s.push_str(&format!("{},{},{}\n", id, x, y));
     }
     std::fs::write(&file, s).expect("write");
-    let cands: Vec<(usize, f32, f32)> = verts.iter().enumerate().map(|(id, li)| (id, lattice(*li).0, lattice(*li).1)).collect();
-    let pts: Vec<(f64, f64)> = query_points().into_iter().map(|(x, y)| (ox as f64 + x, oy as f64 + y)).collect();
+    let cands: Vec<(usize, f32, f32)> = verts
+        .iter()
+        .enumerate()
+        .map(|(id, li)| (id, lattice(*li).0, lattice(*li).1))
+        .collect();
+    let pts: Vec<(f64, f64)> = query_points()
+        .into_iter()
+        .map(|(x, y)| (ox as f64 + x, oy as f64 + y))
+        .collect();
     for (ti, (tol, unit_mode)) in tolerances().iter().enumerate() {
         let unit_mode = *unit_mode;
         if tier == Tier::Quick && ti != 0 && (ti + mask as usize + origin) % 4 != 0 {
@@ -118,15 +139,30 @@ fn check_vertex(scratch: &Scratch, mask: u32, origin: usize, tier: Tier, st: &mu
         // built the way the application builds it: by the plugin builder from its configuration (tolerance and unit as
         // configuration values); the first tolerance of every set also through the constructor
         let plugin: std::sync::Arc<dyn InputPlugin> = if ti == 1 || ti == 18 {
-            match RTreePlugin::new(&file, tol.as_ref().map(|t| Distance::new(t.0)), if unit_mode == 1 { None } else { tol.as_ref().map(|t| t.1) }) {
+            match RTreePlugin::new(
+                &file,
+                tol.as_ref().map(|t| Distance::new(t.0)),
+                if unit_mode == 1 {
+                    None
+                } else {
+                    tol.as_ref().map(|t| t.1)
+                },
+            ) {
                 Ok(p) => std::sync::Arc::new(p),
                 Err(e) => {
-                    st.violation("vertex_rtree", "builds", mask as u64, || e.to_string(), || json!({"vertices": verts}));
+                    st.violation(
+                        "vertex_rtree",
+                        "builds",
+                        mask as u64,
+                        || e.to_string(),
+                        || json!({"vertices": verts}),
+                    );
                     continue;
                 }
             }
         } else {
-            let mut conf = json!({"type": "vertex_rtree", "vertices_input_file": file.to_str().unwrap()});
+            let mut conf =
+                json!({"type": "vertex_rtree", "vertices_input_file": file.to_str().unwrap()});
             if let Some((t, u)) = tol {
                 conf["distance_tolerance"] = json!(t);
                 if unit_mode != 1 {
@@ -144,7 +180,11 @@ fn check_vertex(scratch: &Scratch, mask: u32, origin: usize, tier: Tier, st: &mu
                 }
             }
         };
-        let tol_name = if tol.is_some() { "with_tolerance" } else { "no_tolerance" };
+        let tol_name = if tol.is_some() {
+            "with_tolerance"
+        } else {
+            "no_tolerance"
+        };
         for (pi, (px, py)) in pts.iter().enumerate() {
             // origin only, and origin + destination (destination = the point rotated through the list)
             for with_dest in [false, true] {
@@ -170,7 +210,11 @@ fn check_vertex(scratch: &Scratch, mask: u32, origin: usize, tier: Tier, st: &mu
                 let case = || json!({"kind": "vertex", "lattice_vertices": verts, "lattice_origin": origin, "tolerance": tol.as_ref().map(|t| (t.0, t.1.to_string())), "unit_written": unit_mode, "query": before});
                 let r = guarded(|| plugin.process(&mut q).map_err(|e| e.to_string()));
                 let (o_ids, o_err, o_bd) = expect(&cands, *px, *py, tol, origin != 0);
-                let (d_ids, d_err, d_bd) = if with_dest { expect(&cands, dx, dy, tol, origin != 0) } else { (vec![], false, false) };
+                let (d_ids, d_err, d_bd) = if with_dest {
+                    expect(&cands, dx, dy, tol, origin != 0)
+                } else {
+                    (vec![], false, false)
+                };
                 if o_bd || d_bd {
                     st.skipped_boundary += 1;
                     continue;
@@ -182,7 +226,13 @@ fn check_vertex(scratch: &Scratch, mask: u32, origin: usize, tier: Tier, st: &mu
                         if o_err || d_err {
                             st.pass("beyond_tolerance_is_error");
                         } else {
-                            st.violation(&comp, "within_tolerance_always_matches", size, || e.clone(), case);
+                            st.violation(
+                                &comp,
+                                "within_tolerance_always_matches",
+                                size,
+                                || e.clone(),
+                                case,
+                            );
                         }
                     }
                     Ok(Ok(())) => {
@@ -190,21 +240,48 @@ fn check_vertex(scratch: &Scratch, mask: u32, origin: usize, tier: Tier, st: &mu
                             st.violation(&comp, "beyond_tolerance_is_error", size, || format!("matched {:?}/{:?} although the nearest vertex is beyond the tolerance", q.get("origin_vertex"), q.get("destination_vertex")), case);
                             continue;
                         }
-                        let o = q.get("origin_vertex").and_then(|v| v.as_u64()).map(|v| v as usize);
+                        let o = q
+                            .get("origin_vertex")
+                            .and_then(|v| v.as_u64())
+                            .map(|v| v as usize);
                         if o.map_or(false, |o| o_ids.contains(&o)) {
                             st.pass("origin_is_nearest_vertex");
                         } else {
-                            st.violation(&comp, "matched_vertex_is_nearest", size, || format!("origin matched {:?}, nearest {:?}", o, o_ids), case);
+                            st.violation(
+                                &comp,
+                                "matched_vertex_is_nearest",
+                                size,
+                                || format!("origin matched {:?}, nearest {:?}", o, o_ids),
+                                case,
+                            );
                         }
                         if with_dest {
-                            let d = q.get("destination_vertex").and_then(|v| v.as_u64()).map(|v| v as usize);
+                            let d = q
+                                .get("destination_vertex")
+                                .and_then(|v| v.as_u64())
+                                .map(|v| v as usize);
                             if d.map_or(false, |d| d_ids.contains(&d)) {
                                 st.pass("destination_is_nearest_vertex");
                             } else {
-                                st.violation(&comp, "matched_vertex_is_nearest", size, || format!("destination matched {:?}, nearest {:?}", d, d_ids), case);
+                                st.violation(
+                                    &comp,
+                                    "matched_vertex_is_nearest",
+                                    size,
+                                    || format!("destination matched {:?}, nearest {:?}", d, d_ids),
+                                    case,
+                                );
                             }
                         } else if q.get("destination_vertex").is_some() {
-                            st.violation(&comp, "no_destination_no_match", size, || "destination_vertex written without destination coordinates".to_string(), case);
+                            st.violation(
+                                &comp,
+                                "no_destination_no_match",
+                                size,
+                                || {
+                                    "destination_vertex written without destination coordinates"
+                                        .to_string()
+                                },
+                                case,
+                            );
                         }
                         // all other fields unchanged
                         let mut rest = q.clone();
@@ -220,7 +297,13 @@ fn check_vertex(scratch: &Scratch, mask: u32, origin: usize, tier: Tier, st: &mu
                         if rest == before_rest {
                             st.pass("other_fields_unchanged");
                         } else {
-                            st.violation(&comp, "other_fields_unchanged", size, || format!("{} -> {}", before, q), case);
+                            st.violation(
+                                &comp,
+                                "other_fields_unchanged",
+                                size,
+                                || format!("{} -> {}", before, q),
+                                case,
+                            );
                         }
                     }
                 }
@@ -237,15 +320,41 @@ fn shape_points(e: usize, a: (f32, f32), b: (f32, f32), shape: u8) -> Vec<(f32, 
     let (dx, dy) = (b.0 - a.0, b.1 - a.1);
     match shape {
         0 => vec![a, b],
-        1 => vec![a, ((a.0 + b.0) / 2.0 + 0.0004 * (e as f32 + 1.0), (a.1 + b.1) / 2.0 - 0.0003 * (e as f32 + 1.0)), b],
+        1 => vec![
+            a,
+            (
+                (a.0 + b.0) / 2.0 + 0.0004 * (e as f32 + 1.0),
+                (a.1 + b.1) / 2.0 - 0.0003 * (e as f32 + 1.0),
+            ),
+            b,
+        ],
         2 => vec![a, (a.0 + 3.0 * dx, a.1 + 3.0 * dy), b],
-        _ => vec![a, ((a.0 + b.0) / 2.0 - 2.0 * dy, (a.1 + b.1) / 2.0 + 2.0 * dx), b],
+        _ => vec![
+            a,
+            ((a.0 + b.0) / 2.0 - 2.0 * dy, (a.1 + b.1) / 2.0 + 2.0 * dx),
+            b,
+        ],
     }
 }
 
 /// (edges as lattice pairs, shape per edge). more than six records make the index a tree of several nodes
 fn edge_sets() -> Vec<(Vec<(usize, usize)>, Vec<u8>)> {
-    let pool: Vec<(usize, usize)> = vec![(0, 1), (1, 2), (3, 4), (4, 5), (6, 7), (7, 8), (0, 3), (3, 6), (1, 4), (4, 7), (2, 5), (5, 8), (0, 4), (4, 8)];
+    let pool: Vec<(usize, usize)> = vec![
+        (0, 1),
+        (1, 2),
+        (3, 4),
+        (4, 5),
+        (6, 7),
+        (7, 8),
+        (0, 3),
+        (3, 6),
+        (1, 4),
+        (4, 7),
+        (2, 5),
+        (5, 8),
+        (0, 4),
+        (4, 8),
+    ];
     let np = pool.len();
     let mut out: Vec<(Vec<(usize, usize)>, Vec<u8>)> = vec![];
     // the six sets of the first version (slight bends)
@@ -269,7 +378,10 @@ fn edge_sets() -> Vec<(Vec<(usize, usize)>, Vec<u8>)> {
     // every pair of pool edges, shapes rotating
     for i in 0..np {
         for j in i + 1..np {
-            out.push((vec![pool[i], pool[j]], vec![((i + j) % 4) as u8, ((i * j + 1) % 4) as u8]));
+            out.push((
+                vec![pool[i], pool[j]],
+                vec![((i + j) % 4) as u8, ((i * j + 1) % 4) as u8],
+            ));
         }
     }
     // large sets (7, 9, 12, 14 records): shapes rotating
@@ -285,7 +397,10 @@ fn edge_sets() -> Vec<(Vec<(usize, usize)>, Vec<u8>)> {
     // all fourteen, one bent edge among straight ones
     for h in 0..np {
         for sh in [2u8, 3] {
-            out.push((pool.clone(), (0..np).map(|i| if i == h { sh } else { 0 }).collect()));
+            out.push((
+                pool.clone(),
+                (0..np).map(|i| if i == h { sh } else { 0 }).collect(),
+            ));
         }
     }
     out
@@ -298,27 +413,76 @@ fn check_edges(scratch: &Scratch, si: usize, tier: Tier, st: &mut Stats) {
     let m = edges.len();
     let dir = scratch.path.join(format!("e{}", si));
     let _ = std::fs::create_dir_all(&dir);
-    let geoms: Vec<Vec<(f32, f32)>> = edges.iter().enumerate().map(|(e, (a, b))| shape_points(e, lattice(*a), lattice(*b), shapes[e])).collect();
+    let geoms: Vec<Vec<(f32, f32)>> = edges
+        .iter()
+        .enumerate()
+        .map(|(e, (a, b))| shape_points(e, lattice(*a), lattice(*b), shapes[e]))
+        .collect();
     let gfile = dir.join("geometries.txt");
-    std::fs::write(&gfile, geoms.iter().map(|g| format!("LINESTRING ({})\n", g.iter().map(|(x, y)| format!("{} {}", x, y)).collect::<Vec<_>>().join(", "))).collect::<String>()).expect("write");
+    std::fs::write(
+        &gfile,
+        geoms
+            .iter()
+            .map(|g| {
+                format!(
+                    "LINESTRING ({})\n",
+                    g.iter()
+                        .map(|(x, y)| format!("{} {}", x, y))
+                        .collect::<Vec<_>>()
+                        .join(", ")
+                )
+            })
+            .collect::<String>(),
+    )
+    .expect("write");
     let classes: Vec<u8> = (0..m).map(|e| (e % 2) as u8).collect();
     let cfile = dir.join("classes.txt");
-    std::fs::write(&cfile, classes.iter().map(|c| format!("{}\n", c)).collect::<String>()).expect("write");
+    std::fs::write(
+        &cfile,
+        classes
+            .iter()
+            .map(|c| format!("{}\n", c))
+            .collect::<String>(),
+    )
+    .expect("write");
     let rfile = dir.join("restrictions.csv");
     // edge 0 carries two rows (a vehicle may meet one and exceed the other), edge 1 one
-    let restr_rows: Vec<(usize, &str, f64, &str)> = if m > 1 { vec![(0, "maximum_height", 4.0, "meters"), (0, "maximum_total_weight", 40000.0, "kg"), (1, "maximum_total_weight", 40000.0, "kg")] } else { vec![(0, "maximum_height", 4.0, "meters"), (0, "maximum_total_weight", 40000.0, "kg")] };
-    std::fs::write(&rfile, format!("edge_id,restriction_name,restriction_value,restriction_unit\n{}", restr_rows.iter().map(|(e, k, v, u)| format!("{},{},{},{}\n", e, k, v, u)).collect::<String>())).expect("write");
+    let restr_rows: Vec<(usize, &str, f64, &str)> = if m > 1 {
+        vec![
+            (0, "maximum_height", 4.0, "meters"),
+            (0, "maximum_total_weight", 40000.0, "kg"),
+            (1, "maximum_total_weight", 40000.0, "kg"),
+        ]
+    } else {
+        vec![
+            (0, "maximum_height", 4.0, "meters"),
+            (0, "maximum_total_weight", 40000.0, "kg"),
+        ]
+    };
+    std::fs::write(
+        &rfile,
+        format!(
+            "edge_id,restriction_name,restriction_value,restriction_unit\n{}",
+            restr_rows
+                .iter()
+                .map(|(e, k, v, u)| format!("{},{},{},{}\n", e, k, v, u))
+                .collect::<String>()
+        ),
+    )
+    .expect("write");
     // the plugin's measure: squared coordinate distance to the linestring centroid, in f32
     let centroids: Vec<(usize, f32, f32)> = geoms
         .iter()
         .enumerate()
         .map(|(e, g)| {
-            let ls: geo::LineString<f32> = g.iter().map(|(x, y)| geo::coord! {x: *x, y: *y}).collect();
+            let ls: geo::LineString<f32> =
+                g.iter().map(|(x, y)| geo::coord! {x: *x, y: *y}).collect();
             let c = ls.centroid().expect("centroid");
             (e, c.x(), c.y())
         })
         .collect();
-    let parser: RoadClassParser = serde_json::from_value(json!({"mapping": {"even": 0, "odd": 1}})).unwrap_or_default();
+    let parser: RoadClassParser =
+        serde_json::from_value(json!({"mapping": {"even": 0, "odd": 1}})).unwrap_or_default();
     let vp_ok = json!({"height": [13.0, "feet"], "width": [2.5, "meters"], "total_length": [60.0, "feet"], "trailer_length": [15.0, "meters"], "total_weight": [9000.0, "kg"], "number_of_axles": 4});
     let vp_tall = json!({"height": [13.5, "feet"], "width": [2.5, "meters"], "total_length": [60.0, "feet"], "trailer_length": [15.0, "meters"], "total_weight": [9000.0, "kg"], "number_of_axles": 4});
     let vp_heavy = json!({"height": [13.0, "feet"], "width": [2.5, "meters"], "total_length": [60.0, "feet"], "trailer_length": [15.0, "meters"], "total_weight": [50000.0, "kg"], "number_of_axles": 4});
@@ -329,9 +493,17 @@ fn check_edges(scratch: &Scratch, si: usize, tier: Tier, st: &mut Stats) {
         ("classes_odd_named", Some(json!(["odd"])), None),
         ("vehicle_fits", None, Some(vp_ok.clone())),
         ("vehicle_too_tall", None, Some(vp_tall.clone())),
-        ("classes_and_vehicle", Some(json!([0])), Some(vp_tall.clone())),
+        (
+            "classes_and_vehicle",
+            Some(json!([0])),
+            Some(vp_tall.clone()),
+        ),
         ("vehicle_too_heavy", None, Some(vp_heavy.clone())),
-        ("vehicle_too_tall_and_heavy", None, Some(vp_tall_heavy.clone())),
+        (
+            "vehicle_too_tall_and_heavy",
+            None,
+            Some(vp_tall_heavy.clone()),
+        ),
     ];
     let pts = query_points();
     for (ti, (tol, unit_mode)) in tolerances().iter().enumerate() {
@@ -339,44 +511,66 @@ fn check_edges(scratch: &Scratch, si: usize, tier: Tier, st: &mut Stats) {
         if tier == Tier::Quick && ti != 0 && (ti + si) % (if si < 6 { 4 } else { 8 }) != 0 {
             continue;
         }
-        let plugin: std::sync::Arc<dyn InputPlugin> = match guarded(|| -> Result<std::sync::Arc<dyn InputPlugin>, String> {
-            if ti == 1 || ti == 18 {
-                EdgeRtreeInputPlugin::new(
-                    Some(cfile.to_str().unwrap().to_string()),
-                    Some(rfile.to_str().unwrap().to_string()),
-                    gfile.to_str().unwrap().to_string(),
-                    tol.as_ref().map(|t| Distance::new(t.0)),
-                    if unit_mode == 1 { None } else { tol.as_ref().map(|t| t.1) },
-                    parser.clone(),
-                )
-                .map(|p| std::sync::Arc::new(p) as std::sync::Arc<dyn InputPlugin>)
-                .map_err(|e| e.to_string())
-            } else {
-                // the application's way: the builder and its configuration
-                let mut conf = json!({"type": "edge_rtree", "geometry_input_file": gfile.to_str().unwrap(), "road_class_input_file": cfile.to_str().unwrap(), "vehicle_restriction_input_file": rfile.to_str().unwrap(), "road_class_parser": {"mapping": {"even": 0, "odd": 1}}});
-                if let Some((t, u)) = tol {
-                    conf["distance_tolerance"] = json!(t);
-                    if unit_mode != 1 {
-                        conf["distance_unit"] = json!(u.to_string());
+        let plugin: std::sync::Arc<dyn InputPlugin> = match guarded(
+            || -> Result<std::sync::Arc<dyn InputPlugin>, String> {
+                if ti == 1 || ti == 18 {
+                    EdgeRtreeInputPlugin::new(
+                        Some(cfile.to_str().unwrap().to_string()),
+                        Some(rfile.to_str().unwrap().to_string()),
+                        gfile.to_str().unwrap().to_string(),
+                        tol.as_ref().map(|t| Distance::new(t.0)),
+                        if unit_mode == 1 {
+                            None
+                        } else {
+                            tol.as_ref().map(|t| t.1)
+                        },
+                        parser.clone(),
+                    )
+                    .map(|p| std::sync::Arc::new(p) as std::sync::Arc<dyn InputPlugin>)
+                    .map_err(|e| e.to_string())
+                } else {
+                    // the application's way: the builder and its configuration
+                    let mut conf = json!({"type": "edge_rtree", "geometry_input_file": gfile.to_str().unwrap(), "road_class_input_file": cfile.to_str().unwrap(), "vehicle_restriction_input_file": rfile.to_str().unwrap(), "road_class_parser": {"mapping": {"even": 0, "odd": 1}}});
+                    if let Some((t, u)) = tol {
+                        conf["distance_tolerance"] = json!(t);
+                        if unit_mode != 1 {
+                            conf["distance_unit"] = json!(u.to_string());
+                        }
                     }
+                    if unit_mode == 2 {
+                        conf["distance_unit"] = json!("kilometers");
+                    }
+                    (routee_compass::plugin::input::default::edge_rtree::edge_rtree_input_plugin_builder::EdgeRtreeInputPluginBuilder {}).build(&conf).map_err(|e| e.to_string())
                 }
-                if unit_mode == 2 {
-                    conf["distance_unit"] = json!("kilometers");
-                }
-                (routee_compass::plugin::input::default::edge_rtree::edge_rtree_input_plugin_builder::EdgeRtreeInputPluginBuilder {}).build(&conf).map_err(|e| e.to_string())
-            }
-        }) {
+            },
+        ) {
             Ok(Ok(p)) => p,
             Ok(Err(e)) => {
-                st.violation("edge_rtree", "builds", si as u64, || e.to_string(), || json!({"edges": edges}));
+                st.violation(
+                    "edge_rtree",
+                    "builds",
+                    si as u64,
+                    || e.to_string(),
+                    || json!({"edges": edges}),
+                );
                 continue;
             }
             Err(p) => {
-                st.violation("edge_rtree", "builds_no_panic", si as u64, || p.clone(), || json!({"edges": edges}));
+                st.violation(
+                    "edge_rtree",
+                    "builds_no_panic",
+                    si as u64,
+                    || p.clone(),
+                    || json!({"edges": edges}),
+                );
                 continue;
             }
         };
-        let tol_name = if tol.is_some() { "with_tolerance" } else { "no_tolerance" };
+        let tol_name = if tol.is_some() {
+            "with_tolerance"
+        } else {
+            "no_tolerance"
+        };
         for (fname, qc, qv) in filters.iter() {
             // admissible candidates under the filter
             let admissible: Vec<(usize, f32, f32)> = centroids
@@ -384,13 +578,28 @@ fn check_edges(scratch: &Scratch, si: usize, tier: Tier, st: &mut Stats) {
                 .filter(|(e, _, _)| {
                     let class_ok = match qc {
                         None => true,
-                        Some(v) => v.as_array().map_or(true, |a| a.iter().any(|x| x.as_u64() == Some(classes[*e] as u64) || x.as_str() == Some(if classes[*e] == 0 { "even" } else { "odd" }))),
+                        Some(v) => v.as_array().map_or(true, |a| {
+                            a.iter().any(|x| {
+                                x.as_u64() == Some(classes[*e] as u64)
+                                    || x.as_str()
+                                        == Some(if classes[*e] == 0 { "even" } else { "odd" })
+                            })
+                        }),
                     };
-                    let veh_ok = match qv {
-                        None => true,
-                        // every row of the edge must be met
-                        Some(v) => restr_rows.iter().filter(|r| r.0 == *e).all(|(_, kind, limit, _)| if *kind == "maximum_height" { v["height"][0].as_f64().unwrap_or(0.0) * 0.3048 <= *limit } else { v["total_weight"][0].as_f64().unwrap_or(0.0) <= *limit }),
-                    };
+                    let veh_ok =
+                        match qv {
+                            None => true,
+                            // every row of the edge must be met
+                            Some(v) => restr_rows.iter().filter(|r| r.0 == *e).all(
+                                |(_, kind, limit, _)| {
+                                    if *kind == "maximum_height" {
+                                        v["height"][0].as_f64().unwrap_or(0.0) * 0.3048 <= *limit
+                                    } else {
+                                        v["total_weight"][0].as_f64().unwrap_or(0.0) <= *limit
+                                    }
+                                },
+                            ),
+                        };
                     class_ok && veh_ok
                 })
                 .cloned()
@@ -424,11 +633,20 @@ fn check_edges(scratch: &Scratch, si: usize, tier: Tier, st: &mut Stats) {
                         if must_err || admissible.is_empty() {
                             st.pass("beyond_tolerance_is_error");
                         } else {
-                            st.violation(&comp, "within_tolerance_always_matches", size, || e.clone(), case);
+                            st.violation(
+                                &comp,
+                                "within_tolerance_always_matches",
+                                size,
+                                || e.clone(),
+                                case,
+                            );
                         }
                     }
                     Ok(Ok(())) => {
-                        let o = q.get("origin_edge").and_then(|v| v.as_u64()).map(|v| v as usize);
+                        let o = q
+                            .get("origin_edge")
+                            .and_then(|v| v.as_u64())
+                            .map(|v| v as usize);
                         if must_err || admissible.is_empty() {
                             st.violation(&comp, "beyond_tolerance_is_error", size, || format!("matched edge {:?} although the nearest admissible edge is beyond the tolerance", o), case);
                             continue;
@@ -436,7 +654,13 @@ fn check_edges(scratch: &Scratch, si: usize, tier: Tier, st: &mut Stats) {
                         if o.map_or(false, |o| ids.contains(&o)) {
                             st.pass("origin_is_nearest_admissible_edge");
                         } else {
-                            st.violation(&comp, "matched_edge_is_nearest_admissible", size, || format!("matched {:?}, nearest admissible {:?}", o, ids), case);
+                            st.violation(
+                                &comp,
+                                "matched_edge_is_nearest_admissible",
+                                size,
+                                || format!("matched {:?}, nearest admissible {:?}", o, ids),
+                                case,
+                            );
                         }
                         let mut rest = q.clone();
                         if let Some(o) = rest.as_object_mut() {
@@ -446,7 +670,13 @@ fn check_edges(scratch: &Scratch, si: usize, tier: Tier, st: &mut Stats) {
                         if rest == before {
                             st.pass("other_fields_unchanged");
                         } else {
-                            st.violation(&comp, "other_fields_unchanged", size, || format!("{} -> {}", before, q), case);
+                            st.violation(
+                                &comp,
+                                "other_fields_unchanged",
+                                size,
+                                || format!("{} -> {}", before, q),
+                                case,
+                            );
                         }
                     }
                 }
@@ -461,7 +691,9 @@ pub fn run(tier: Tier) -> i32 {
     let scratch = Scratch::new("c16");
     // vertex sets: all subsets of size 1..4 of the 3 x 3 lattice
     // (quick: sizes 1-4 and 7-9, so that the index is a tree of several nodes as well)
-    let masks: Vec<u32> = (1u32..512).filter(|m| tier == Tier::Thorough || m.count_ones() <= 4 || m.count_ones() >= 7).collect();
+    let masks: Vec<u32> = (1u32..512)
+        .filter(|m| tier == Tier::Thorough || m.count_ones() <= 4 || m.count_ones() >= 7)
+        .collect();
     let mut st = par_blocks(masks.len() as u64, 4, |lo, hi, st| {
         for i in lo..hi {
             for origin in 0..ORIGINS.len() {
@@ -494,7 +726,11 @@ pub fn run(tier: Tier) -> i32 {
 pub fn replay(case: &Value) -> i32 {
     // the index files are regenerated from the recorded vertex set / edge set; the whole set is run again (all query
     // points, tolerances and filters), the recorded query among them
-    let c = if case.get("case").is_some() { &case["case"] } else { case };
+    let c = if case.get("case").is_some() {
+        &case["case"]
+    } else {
+        case
+    };
     let scratch = Scratch::new("c16r");
     let mut st = Stats::new();
     match c["kind"].as_str() {
@@ -507,12 +743,20 @@ pub fn replay(case: &Value) -> i32 {
             check_edges(&scratch, si, Tier::Thorough, &mut st);
         }
         Some("vertex") => {
-            let mask = c["lattice_vertices"].as_array().map(|a| a.iter().filter_map(|v| v.as_u64()).fold(0u32, |m, v| m | (1 << v))).unwrap_or(0);
+            let mask = c["lattice_vertices"]
+                .as_array()
+                .map(|a| {
+                    a.iter()
+                        .filter_map(|v| v.as_u64())
+                        .fold(0u32, |m, v| m | (1 << v))
+                })
+                .unwrap_or(0);
             if mask == 0 {
                 println!("MACHINERY-ERROR no vertex set in the case");
                 return 2;
             }
-            let origin = (c["lattice_origin"].as_u64().unwrap_or(0) as usize).min(ORIGINS.len() - 1);
+            let origin =
+                (c["lattice_origin"].as_u64().unwrap_or(0) as usize).min(ORIGINS.len() - 1);
             check_vertex(&scratch, mask, origin, Tier::Thorough, &mut st);
         }
         _ => {
@@ -523,7 +767,11 @@ pub fn replay(case: &Value) -> i32 {
     for (k, g) in st.violations.iter() {
         println!("REPLAY-VIOLATION {} ({} cases) {}", k, g.count, g.detail);
     }
-    println!("replay: {} violated clauses over {} plugin invocations", st.violations.len(), st.evaluations);
+    println!(
+        "replay: {} violated clauses over {} plugin invocations",
+        st.violations.len(),
+        st.evaluations
+    );
     if st.violations.is_empty() {
         0
     } else {
